@@ -60,6 +60,8 @@ func (s *Session) Kill() { s.nc.Close() }
 type Server struct {
 	ln      net.Listener
 	signer  ssh.Signer
+	plain   ssh.PublicKey
+	ca      ssh.PublicKey
 	port    int
 	mu      sync.Mutex
 	events  []Event
@@ -72,7 +74,14 @@ type Server struct {
 }
 
 // NewServer listens on 127.0.0.1:0 with a fresh ed25519 host key.
-func NewServer() (*Server, error) {
+func NewServer() (*Server, error) { return newServer(false) }
+
+// NewCertServer is like NewServer, but the host key it presents is an OpenSSH host CERTIFICATE for
+// a fresh ed25519 key, signed by a fresh per-server CA (principals: 127.0.0.1 and the host:port
+// forms). CAKey is the CA's public key, PlainHostKey the certified key without the certificate.
+func NewCertServer() (*Server, error) { return newServer(true) }
+
+func newServer(withCert bool) (*Server, error) {
 	_, priv, err := ed25519.GenerateKey(rand.Reader)
 	if err != nil {
 		return nil, err
@@ -85,11 +94,45 @@ func NewServer() (*Server, error) {
 	if err != nil {
 		return nil, err
 	}
-	s := &Server{ln: ln, signer: signer, port: ln.Addr().(*net.TCPAddr).Port, conns: map[int64]net.Conn{}, accts: map[string]*Account{}}
+	port := ln.Addr().(*net.TCPAddr).Port
+	s := &Server{ln: ln, signer: signer, plain: signer.PublicKey(), port: port, conns: map[int64]net.Conn{}, accts: map[string]*Account{}}
+	if withCert {
+		_, caPriv, err := ed25519.GenerateKey(rand.Reader)
+		if err != nil {
+			ln.Close()
+			return nil, err
+		}
+		ca, err := ssh.NewSignerFromKey(caPriv)
+		if err != nil {
+			ln.Close()
+			return nil, err
+		}
+		cert := &ssh.Certificate{
+			Key: signer.PublicKey(), Serial: 1, CertType: ssh.HostCert, KeyId: "verif-host",
+			ValidPrincipals: []string{"127.0.0.1", fmt.Sprintf("127.0.0.1:%d", port), fmt.Sprintf("[127.0.0.1]:%d", port), "localhost"},
+			ValidAfter:      0, ValidBefore: ssh.CertTimeInfinity,
+		}
+		if err := cert.SignCert(rand.Reader, ca); err != nil {
+			ln.Close()
+			return nil, err
+		}
+		cs, err := ssh.NewCertSigner(cert, signer)
+		if err != nil {
+			ln.Close()
+			return nil, err
+		}
+		s.signer, s.ca = cs, ca.PublicKey()
+	}
 	s.wg.Add(1)
 	go s.acceptLoop()
 	return s, nil
 }
+
+// CAKey is the public key of the CA that signed the host certificate (nil without certificate).
+func (s *Server) CAKey() ssh.PublicKey { return s.ca }
+
+// PlainHostKey is the server's host public key without any certificate around it.
+func (s *Server) PlainHostKey() ssh.PublicKey { return s.plain }
 
 // Port is the TCP port the server listens on.
 func (s *Server) Port() int { return s.port }
@@ -409,4 +452,14 @@ func FreshPublicKey() ssh.PublicKey {
 // non-default port).
 func KnownHostsLine(port int, key ssh.PublicKey) string {
 	return knownhosts.Line([]string{knownhosts.Normalize(fmt.Sprintf("127.0.0.1:%d", port))}, key) + "\n"
+}
+
+// HashedKnownHostsLine renders a known_hosts entry with a hashed host name ("|1|salt|hash key").
+func HashedKnownHostsLine(port int, key ssh.PublicKey) string {
+	return knownhosts.Line([]string{knownhosts.HashHostname(knownhosts.Normalize(fmt.Sprintf("127.0.0.1:%d", port)))}, key) + "\n"
+}
+
+// MarkedKnownHostsLine renders "@marker pattern key" (markers: revoked, cert-authority).
+func MarkedKnownHostsLine(marker, pattern string, key ssh.PublicKey) string {
+	return "@" + marker + " " + knownhosts.Line([]string{pattern}, key) + "\n"
 }
